@@ -180,7 +180,8 @@ def rule_cli(ck: Check, repo: Repo) -> None:
         def event(self, text, call, it):
             f = ast.unparse(call.func)
             if f == "put_license_in_file":
-                return ("put", [it.text(a) for a in call.args], {kw.arg: it.text(kw.value) for kw in call.keywords})
+                from ..model import named_args
+                return ("put", [it.text(a) for a in call.args], {k: it.text(v) for k, v in named_args(call).items()})
             if f in ("_could_not_download", "_already_exists", "_not_found", "_successfully_downloaded"):
                 return ("report", f)
             if f == "ProjectReport.generate":
